@@ -35,7 +35,14 @@ def q(s: str) -> str:
 
 
 def parse(path: Path) -> ast.Module:
-    return ast.parse(path.read_text(), filename=str(path))
+    # calls to simple helpers that did not exist at the pinned commit are expanded in place (tools/inline_helpers.py), so that
+    # an "extract a helper" refactoring reads as the statements it replaced
+    sys.path.insert(0, str(Path(__file__).resolve().parent))
+    try:
+        import inline_helpers
+    finally:
+        sys.path.pop(0)
+    return inline_helpers.parse_expanded(path)
 
 
 def find_def(tree: ast.AST, *names: str) -> Optional[ast.AST]:
@@ -50,8 +57,153 @@ def find_def(tree: ast.AST, *names: str) -> Optional[ast.AST]:
                 break
         if nxt is None:
             return None
+        if isinstance(node, ast.ClassDef) and isinstance(nxt, (ast.FunctionDef, ast.AsyncFunctionDef)):
+            nxt = inline_simple_helpers(node, nxt)     # "extract a helper" refactors are read through (one level)
         node = nxt
     return node
+
+
+# ---------------------------------------------------------------------------------------------------------
+# reading through simple helper methods: `x = self._h(a)` where `_h` is a SYNC method of the same class whose body is
+# straight-line assignments to local names ending in `return <expr>` is treated as the helper's assignments (parameters
+# substituted) followed by `x = <expr>`; a helper that is a single `return <expr>` is substituted wherever it is called.
+# One level only; anything else (async helpers, branches, loops, *args, arguments that are not plain names / attributes /
+# constants, decorated methods) is left as it is - and so remains EXTRACT-FAIL wherever an item does not recognise it.
+# ---------------------------------------------------------------------------------------------------------
+_INLINE_CACHE: Dict[Tuple[int, str], Tuple[ast.AST, ast.AST]] = {}
+
+
+def _simple_arg(e: ast.AST) -> bool:
+    if isinstance(e, (ast.Name, ast.Constant)):
+        return True
+    if isinstance(e, ast.Attribute):
+        return _simple_arg(e.value)
+    if isinstance(e, ast.Subscript):
+        return _simple_arg(e.value) and _simple_arg(e.slice)
+    return False
+
+
+def _simple_helper(cls_node: ast.ClassDef, name: str) -> Optional[Tuple[List[str], List[ast.stmt]]]:
+    """(parameter names without self, body without docstring) of a helper of the recognised shape, else None"""
+    for st in cls_node.body:
+        if isinstance(st, ast.FunctionDef) and st.name == name:
+            a = st.args
+            if st.decorator_list or a.vararg or a.kwarg or a.kwonlyargs or a.posonlyargs or a.defaults or not a.args or a.args[0].arg != "self":
+                return None
+            body = list(st.body)
+            if body and isinstance(body[0], ast.Expr) and isinstance(body[0].value, ast.Constant) and isinstance(body[0].value.value, str):
+                body = body[1:]
+            if not body or not isinstance(body[-1], ast.Return) or body[-1].value is None:
+                return None
+            for b in body[:-1]:
+                plain = isinstance(b, ast.Assign) and len(b.targets) == 1 and isinstance(b.targets[0], ast.Name)
+                ann = isinstance(b, ast.AnnAssign) and isinstance(b.target, ast.Name) and b.value is not None
+                if not (plain or ann):
+                    return None
+            if any(isinstance(n, (ast.Await, ast.Yield, ast.YieldFrom, ast.Lambda, ast.NamedExpr, ast.ListComp, ast.SetComp, ast.DictComp, ast.GeneratorExp))
+                   for b in body for n in ast.walk(b)):
+                return None
+            return [x.arg for x in a.args[1:]], body
+    return None
+
+
+def inline_simple_helpers(cls_node: ast.ClassDef, fn_node: ast.AST) -> ast.AST:
+    """`fn_node` (a method of `cls_node`) with one level of calls to simple helper methods of the same class read through;
+    `fn_node` itself when there is nothing to inline.  The result is re-parsed from its own source, so positions are consistent."""
+    import copy
+    key = (id(cls_node), getattr(fn_node, "name", "?"))
+    hit = _INLINE_CACHE.get(key)
+    if hit is not None and hit[0] is fn_node:
+        return hit[1]
+    caller_names = {n.id for n in ast.walk(fn_node) if isinstance(n, ast.Name)} | {a.arg for a in ast.walk(fn_node) if isinstance(a, ast.arg)}
+    changed = [False]
+
+    def helper_call(e: Any) -> Optional[Tuple[str, List[str], List[ast.stmt], List[ast.AST]]]:
+        if not (isinstance(e, ast.Call) and isinstance(e.func, ast.Attribute) and isinstance(e.func.value, ast.Name) and e.func.value.id == "self"):
+            return None
+        if e.func.attr == getattr(fn_node, "name", None) or any(isinstance(a, ast.Starred) for a in e.args) or any(k.arg is None for k in e.keywords):
+            return None
+        h = _simple_helper(cls_node, e.func.attr)
+        if h is None:
+            return None
+        params, body = h
+        bound: Dict[str, ast.AST] = dict(zip(params, e.args))
+        for k in e.keywords:
+            if k.arg in bound or k.arg not in params:
+                return None
+            bound[k.arg] = k.value
+        if len(e.args) > len(params) or set(bound) != set(params) or not all(_simple_arg(v) for v in bound.values()):
+            return None
+        return e.func.attr, params, body, [bound[p] for p in params]
+
+    def instantiate(name: str, params: List[str], body: List[ast.stmt], args: List[ast.AST], keep: Optional[str]) -> Tuple[List[ast.stmt], ast.AST]:
+        """the helper's assignments and its return expression with parameters replaced by the arguments; a local of the helper
+        that also occurs in the caller (other than as the target `keep` of this very assignment) or in an argument is renamed"""
+        arg_names = {n.id for a in args for n in ast.walk(a) if isinstance(n, ast.Name)}
+        locals_ = [b.targets[0].id if isinstance(b, ast.Assign) else b.target.id for b in body[:-1]]    # type: ignore[union-attr]
+        ren = {v: f"_{name.strip('_')}_{v}" for v in locals_ if (v in arg_names or v in params or (v in caller_names and v != keep))}
+        env = dict(zip(params, args))
+
+        class Sub(ast.NodeTransformer):
+            def visit_Name(self, n: ast.Name) -> Any:
+                if n.id in ren:
+                    return ast.copy_location(ast.Name(id=ren[n.id], ctx=n.ctx), n)
+                if n.id in env and isinstance(n.ctx, ast.Load):
+                    return copy.deepcopy(env[n.id])
+                return n
+        stmts = [Sub().visit(copy.deepcopy(b)) for b in body]
+        return stmts[:-1], stmts[-1].value
+
+    class Expr1(ast.NodeTransformer):
+        """helpers that are a single `return <expr>`: substituted in place, wherever they are called"""
+        def visit_Call(self, e: ast.Call) -> Any:
+            self.generic_visit(e)
+            h = helper_call(e)
+            if h is not None and len(h[2]) == 1:
+                changed[0] = True
+                return instantiate(h[0], h[1], h[2], h[3], None)[1]
+            return e
+
+    def block(stmts: List[ast.stmt]) -> List[ast.stmt]:
+        out: List[ast.stmt] = []
+        for st in stmts:
+            val = st.value if isinstance(st, (ast.Assign, ast.AnnAssign, ast.Expr, ast.Return)) else None
+            h = helper_call(val) if val is not None else None
+            if h is not None and not (isinstance(st, ast.Assign) and len(st.targets) != 1):
+                keep = None
+                if isinstance(st, ast.Assign) and isinstance(st.targets[0], ast.Name):
+                    keep = st.targets[0].id
+                elif isinstance(st, ast.AnnAssign) and isinstance(st.target, ast.Name):
+                    keep = st.target.id
+                pre, ret = instantiate(h[0], h[1], h[2], h[3], keep)
+                new = copy.copy(st)
+                new.value = ret         # type: ignore[attr-defined]
+                out += pre + [new]
+                changed[0] = True
+                continue
+            for field in ("body", "orelse", "finalbody"):
+                sub = getattr(st, field, None)
+                if isinstance(sub, list) and sub and isinstance(sub[0], ast.stmt) and not isinstance(st, (ast.FunctionDef, ast.AsyncFunctionDef, ast.ClassDef)):
+                    setattr(st, field, block(sub))
+            for hd in getattr(st, "handlers", []) or []:
+                hd.body = block(hd.body)
+            for case in getattr(st, "cases", []) or []:
+                case.body = block(case.body)
+            out.append(st)
+        return out
+
+    work = copy.deepcopy(fn_node)
+    work.body = block(work.body)            # type: ignore[attr-defined]
+    work = Expr1().visit(work)
+    result: ast.AST = fn_node
+    if changed[0]:
+        try:
+            ast.fix_missing_locations(work)
+            result = ast.parse(ast.unparse(work)).body[0]
+        except Exception:  # noqa
+            result = fn_node
+    _INLINE_CACHE[key] = (fn_node, result)
+    return result
 
 
 # ---------------------------------------------------------------------------------------------------------
@@ -1021,8 +1173,16 @@ def extract_limits(src: Path) -> str:
             callers = sorted(f.name for f in cls.body if isinstance(f, (ast.FunctionDef, ast.AsyncFunctionDef)) and any(  # type: ignore
                 isinstance(n, ast.Call) and ast.unparse(n.func) == "self._create_stream" for n in ast.walk(f)))
             emit(f"def {tag}CreateStreamCallers : List String := [" + ", ".join(q(x) for x in callers) + "]")
-            news = sorted({f.name for f in cls.body if isinstance(f, (ast.FunctionDef, ast.AsyncFunctionDef)) for n in ast.walk(f)  # type: ignore
-                           if isinstance(n, ast.Call) and ast.unparse(n.func) in ("HTTPStream", "WSStream")})
+            # (a direct call, or the class taken as a value - `stream_class = WSStream if … else HTTPStream; stream_class(…)` -
+            # i.e. any mention of the class outside an `isinstance(…)` test)
+            def constructs(f: Any) -> bool:
+                in_isinstance = {id(x) for n in ast.walk(f) if isinstance(n, ast.Call) and ast.unparse(n.func) == "isinstance" for x in ast.walk(n)}
+                for n in ast.walk(f):       # annotations are not values
+                    notes = [n.annotation] if isinstance(n, (ast.AnnAssign, ast.arg)) and n.annotation is not None else []
+                    notes += [n.returns] if isinstance(n, (ast.FunctionDef, ast.AsyncFunctionDef)) and n.returns is not None else []
+                    in_isinstance |= {id(x) for a in notes for x in ast.walk(a)}
+                return any(isinstance(n, ast.Name) and n.id in ("HTTPStream", "WSStream") and id(n) not in in_isinstance for n in ast.walk(f))
+            news = sorted({f.name for f in cls.body if isinstance(f, (ast.FunctionDef, ast.AsyncFunctionDef)) and constructs(f)})  # type: ignore
             emit(f"def {tag}StreamConstructedIn : List String := [" + ", ".join(q(x) for x in news) + "]   -- methods that construct HTTPStream / WSStream")
         except Exception as e:
             fail(f"{tag}MarkRequestIn", f"{type(e).__name__}: {e}")
